@@ -215,8 +215,51 @@ pub fn gen_all_scalars(out: &mut dyn Write, oracle: &str) {
     writeln!(out, "X {} {oracle}", hexs("a\0b")).unwrap();
 }
 
+/// special scalar values (format characters, controls, white space, noncharacters, plane edges) and scalar values that alias a
+/// format character under truncation, at the positions where a parser or writer might treat them specially: first, last, alone,
+/// doubled, directly behind a backslash, first and last in a tag
+fn special_positions(out: &mut dyn Write, partial: bool) {
+    let mut cs = crate::util::special_scalars();
+    cs.extend(crate::util::alias_scalars());
+    cs.retain(|c| *c != '\0');
+    cs.sort();
+    cs.dedup();
+    let (obs, orc) = if partial { ("TBKGP", "c04rt") } else { ("TBKGIW", "c03rt") };
+    for (k, &c) in cs.iter().enumerate() {
+        let texts: [String; 4] = [c.to_string(), format!("{c}a"), format!("あ{c}"), format!("{c}{c}")];
+        let tags: [String; 5] = [String::new(), c.to_string(), format!("\\{c}"), format!("{c}\\"), format!("x{c}y")];
+        for (ti, text) in texts.iter().enumerate() {
+            let n = text.chars().count();
+            // tokenized format: fully segmented; partial annotation: the labels vary
+            let labels: String = if n == 1 { "-".into() } else if partial { ["W", "N", "U"][(k + ti) % 3].to_string() } else { "W".to_string() };
+            for (gi, tag) in tags.iter().enumerate() {
+                if (k + ti + gi) % 2 == 1 && gi > 1 {
+                    continue;
+                }
+                let mut ops = format!("Fraw:{},setbs:{},reset:1", hexs(text), labels);
+                if !tag.is_empty() {
+                    // tags of a token live on its last character
+                    let idx = if !partial && labels == "W" { gi % n } else { n - 1 };
+                    ops.push_str(&format!(",sett:{}:{}", idx, hexs(tag)));
+                }
+                writeln!(out, "S {ops},obs:{obs} {orc}").unwrap();
+            }
+        }
+        if !partial {
+            for s in [c.to_string(), format!("{c}a"), format!("a{c}"), format!("{c}{c}"), format!("\\{c}"), format!("{c}/{c}"), format!("a/\\{c} {c}/x")] {
+                writeln!(out, "S Ftok:{},obs:TBKGIW c03idem", hexs(&s)).unwrap();
+            }
+        } else {
+            for s in [c.to_string(), format!("{c}|a"), format!("a-{c}"), format!("{c} {c}"), format!("a/\\{c}|b"), format!("{c}/{c}-{c}/x\\{c}")] {
+                writeln!(out, "S Fpart:{},obs:TBKGP c04rt", hexs(&s)).unwrap();
+            }
+        }
+    }
+}
+
 pub fn gen_c03(out: &mut dyn Write, thorough: bool, seed: u64) {
     gen_all_scalars(out, "c03");
+    special_positions(out, false);
     let mut r = Rng::new(seed);
     for t in ["a\\ b/x\\/y c", "a/x//z b", "\\\\/\\ ", "a//", "a\\", "\\"] {
         writeln!(out, "S Ftok:{},obs:TBKGIW c03idem", hexs(t)).unwrap();
@@ -279,6 +322,7 @@ pub fn gen_c03(out: &mut dyn Write, thorough: bool, seed: u64) {
 
 pub fn gen_c04(out: &mut dyn Write, thorough: bool, seed: u64) {
     gen_all_scalars(out, "c04");
+    special_positions(out, true);
     let mut r = Rng::new(seed);
     for (t, l, tags) in [("abc", "NU", vec![(1usize, "x-y")]), ("ab", "W", vec![(0, "a|b"), (1, "c d\\e/f")])] {
         let mut ops = format!("Fraw:{},setbs:{},reset:1", hexs(t), l);
